@@ -147,6 +147,15 @@ let rec mul n0 m =
   | O -> O
   | S p -> add m (mul p m)
 
+(** val sub : nat -> nat -> nat **)
+
+let rec sub n0 m =
+  match n0 with
+  | O -> n0
+  | S k -> (match m with
+            | O -> n0
+            | S l -> sub k l)
+
 (** val eqb : bool -> bool -> bool **)
 
 let eqb b1 b2 =
@@ -192,6 +201,15 @@ module Nat =
 
   let ltb n0 m =
     leb (S n0) m
+
+  (** val max : nat -> nat -> nat **)
+
+  let rec max n0 m =
+    match n0 with
+    | O -> m
+    | S n' -> (match m with
+               | O -> n0
+               | S m' -> S (max n' m'))
  end
 
 module Pos =
@@ -469,6 +487,36 @@ let n_of_ascii a =
     n_of_digits
       (a0 :: (a1 :: (a2 :: (a3 :: (a4 :: (a5 :: (a6 :: (a7 :: [])))))))))
     a
+
+(** val nth : nat -> 'a1 list -> 'a1 -> 'a1 **)
+
+let rec nth n0 l default =
+  match n0 with
+  | O -> (match l with
+          | [] -> default
+          | x :: _ -> x)
+  | S m -> (match l with
+            | [] -> default
+            | _ :: t -> nth m t default)
+
+(** val nth_error : 'a1 list -> nat -> 'a1 option **)
+
+let rec nth_error l = function
+| O -> (match l with
+        | [] -> None
+        | x :: _ -> Some x)
+| S n1 -> (match l with
+           | [] -> None
+           | _ :: l0 -> nth_error l0 n1)
+
+(** val last : 'a1 list -> 'a1 -> 'a1 **)
+
+let rec last l d =
+  match l with
+  | [] -> d
+  | a :: l0 -> (match l0 with
+                | [] -> a
+                | _ :: _ -> last l0 d)
 
 (** val concat : 'a1 list list -> 'a1 list **)
 
@@ -1189,6 +1237,12 @@ let rec str_split_aux c s cur =
 let str_split c s =
   str_split_aux c s []
 
+(** val str_remove_char : char -> char list -> char list **)
+
+let rec str_remove_char c = function
+| [] -> []
+| d::s' -> if (=) c d then str_remove_char c s' else d::(str_remove_char c s')
+
 (** val str_contains_char : char -> char list -> bool **)
 
 let str_contains_char c s =
@@ -1540,6 +1594,11 @@ let n_left = function
 
 let n_right = function
 | Node (_, _, r) -> r
+
+(** val term : char list -> node **)
+
+let term s =
+  Node ((DStr s), None, None)
 
 (** val un : astop -> node -> node **)
 
@@ -2062,6 +2121,12 @@ let r_children = function
 type ctc = { c_name : char list; c_ast : node }
 
 type fm = { root : feature; ctcs : ctc list }
+
+(** val mk_info : char list -> finfo **)
+
+let mk_info n0 =
+  { f_name = n0; f_abstract = (VBool false); f_type = TBoolean; f_cmin =
+    (Zpos XH); f_cmax = (Zpos XH); f_attrs = [] }
 
 (** val fsize : feature -> nat **)
 
@@ -3273,6 +3338,1549 @@ let fm_hash_key lower m =
     (rkeyset (map relation_hash_key (fm_relations m)))),
     (strset (map (ctc_key lower) m.ctcs)))
 
+type path = (nat * nat) list
+
+type ptr =
+| PNone
+| PPath of path
+| PExt
+
+type pfeature =
+| PFeature of finfo * ptr * ptr list * prelation list
+and prelation =
+| PRelation of ptr * z * z * pfeature list
+
+type pfm = { proot : pfeature; pctcs : ctc list }
+
+(** val jt_FEATURE : char list **)
+
+let jt_FEATURE =
+  'F'::('E'::('A'::('T'::('U'::('R'::('E'::[]))))))
+
+(** val jt_XOR : char list **)
+
+let jt_XOR =
+  'X'::('O'::('R'::[]))
+
+(** val jt_OR : char list **)
+
+let jt_OR =
+  'O'::('R'::[])
+
+(** val jt_MUTEX : char list **)
+
+let jt_MUTEX =
+  'M'::('U'::('T'::('E'::('X'::[]))))
+
+(** val jt_CARDINALITY : char list **)
+
+let jt_CARDINALITY =
+  'C'::('A'::('R'::('D'::('I'::('N'::('A'::('L'::('I'::('T'::('Y'::[]))))))))))
+
+(** val jt_OPTIONAL : char list **)
+
+let jt_OPTIONAL =
+  'O'::('P'::('T'::('I'::('O'::('N'::('A'::('L'::[])))))))
+
+(** val jt_MANDATORY : char list **)
+
+let jt_MANDATORY =
+  'M'::('A'::('N'::('D'::('A'::('T'::('O'::('R'::('Y'::[]))))))))
+
+(** val json_relation_type : relation -> char list **)
+
+let json_relation_type r =
+  if rel_is_alternative r
+  then jt_XOR
+  else if rel_is_or r
+       then jt_OR
+       else if rel_is_mutex r
+            then jt_MUTEX
+            else if rel_is_cardinal r
+                 then jt_CARDINALITY
+                 else if rel_is_mandatory r
+                      then jt_MANDATORY
+                      else if rel_is_optional r
+                           then jt_OPTIONAL
+                           else jt_FEATURE
+
+(** val json_attributes : attr list -> aval list **)
+
+let json_attributes attrs =
+  map (fun a -> VMap ((('n'::('a'::('m'::('e'::[])))), (VStr
+    a.a_name)) :: (match a.a_default with
+                   | VNone -> []
+                   | x -> (('v'::('a'::('l'::('u'::('e'::[]))))), x) :: [])))
+    attrs
+
+(** val json_tree : feature -> aval **)
+
+let rec json_tree = function
+| Feature (i, rs) ->
+  VMap
+    (app ((('n'::('a'::('m'::('e'::[])))), (VStr
+      i.f_name)) :: ((('a'::('b'::('s'::('t'::('r'::('a'::('c'::('t'::[])))))))),
+      i.f_abstract) :: ((('r'::('e'::('l'::('a'::('t'::('i'::('o'::('n'::('s'::[]))))))))),
+      (VList
+      (map (fun r ->
+        let Relation (a, b, cs) = r in
+        VMap ((('t'::('y'::('p'::('e'::[])))), (VStr
+        (json_relation_type r))) :: ((('c'::('a'::('r'::('d'::('_'::('m'::('i'::('n'::[])))))))),
+        (VInt
+        a)) :: ((('c'::('a'::('r'::('d'::('_'::('m'::('a'::('x'::[])))))))),
+        (VInt
+        b)) :: ((('c'::('h'::('i'::('l'::('d'::('r'::('e'::('n'::[])))))))),
+        (VList (map json_tree cs))) :: []))))) rs))) :: [])))
+      (match i.f_attrs with
+       | [] -> []
+       | a :: l ->
+         (('a'::('t'::('t'::('r'::('i'::('b'::('u'::('t'::('e'::('s'::[])))))))))),
+           (VList (json_attributes (a :: l)))) :: []))
+
+(** val json_of_data : ndata -> aval **)
+
+let json_of_data = function
+| DOp o -> VStr (astop_value o)
+| DStr s -> VStr s
+| DInt z0 -> VInt z0
+| DFloat r -> VFloat r
+| DBool b -> VBool b
+
+(** val json_ctc : node -> aval result **)
+
+let rec json_ctc n0 = match n0 with
+| Node (d, l, r) ->
+  if is_term n0
+  then Ok (VMap ((('t'::('y'::('p'::('e'::[])))), (VStr
+         jt_FEATURE)) :: ((('o'::('p'::('e'::('r'::('a'::('n'::('d'::('s'::[])))))))),
+         (VList ((json_of_data d) :: []))) :: [])))
+  else (match l with
+        | Some a ->
+          (match json_ctc a with
+           | Ok ja ->
+             (match r with
+              | Some b ->
+                (match json_ctc b with
+                 | Ok jb ->
+                   Ok (VMap ((('t'::('y'::('p'::('e'::[])))), (VStr
+                     (data_label d))) :: ((('o'::('p'::('e'::('r'::('a'::('n'::('d'::('s'::[])))))))),
+                     (VList (ja :: (jb :: [])))) :: [])))
+                 | Err e -> Err e)
+              | None ->
+                Ok (VMap ((('t'::('y'::('p'::('e'::[])))), (VStr
+                  (data_label d))) :: ((('o'::('p'::('e'::('r'::('a'::('n'::('d'::('s'::[])))))))),
+                  (VList (ja :: []))) :: []))))
+           | Err e -> Err e)
+        | None -> Err AttributeError)
+
+(** val json_constraints : ctc list -> aval list result **)
+
+let json_constraints cs =
+  mapM (fun c ->
+    match pretty_str c.c_ast with
+    | Ok expr ->
+      (match json_ctc c.c_ast with
+       | Ok j ->
+         Ok (VMap ((('n'::('a'::('m'::('e'::[])))), (VStr
+           c.c_name)) :: ((('e'::('x'::('p'::('r'::[])))), (VStr
+           expr)) :: ((('a'::('s'::('t'::[]))), j) :: []))))
+       | Err e -> Err e)
+    | Err e -> Err e) cs
+
+(** val json_write : fm -> aval result **)
+
+let json_write m =
+  let tree = json_tree m.root in
+  (match json_constraints m.ctcs with
+   | Ok cs ->
+     Ok (VMap ((('f'::('e'::('a'::('t'::('u'::('r'::('e'::('s'::[])))))))),
+       tree) :: ((('c'::('o'::('n'::('s'::('t'::('r'::('a'::('i'::('n'::('t'::('s'::[]))))))))))),
+       (VList cs)) :: [])))
+   | Err e -> Err e)
+
+(** val assoc : char list -> (char list * aval) list -> aval option **)
+
+let rec assoc k = function
+| [] -> None
+| p :: rest -> let (k', v) = p in if eqb0 k k' then Some v else assoc k rest
+
+(** val jget : char list -> aval -> aval result **)
+
+let jget k = function
+| VMap kv -> (match assoc k kv with
+              | Some x -> Ok x
+              | None -> Err KeyError)
+| _ -> Err TypeError
+
+(** val jhas : char list -> aval -> bool **)
+
+let jhas k = function
+| VMap kv -> (match assoc k kv with
+              | Some _ -> true
+              | None -> false)
+| _ -> false
+
+(** val jlist : aval -> aval list result **)
+
+let jlist = function
+| VList l -> Ok l
+| _ -> Err OtherExn
+
+(** val jstr : aval -> char list result **)
+
+let jstr = function
+| VStr s -> Ok s
+| _ -> Err OtherExn
+
+(** val jint : aval -> z result **)
+
+let jint = function
+| VInt z0 -> Ok z0
+| _ -> Err OtherExn
+
+(** val json_read_attributes : aval -> attr list result **)
+
+let json_read_attributes node0 =
+  if jhas
+       ('a'::('t'::('t'::('r'::('i'::('b'::('u'::('t'::('e'::('s'::[]))))))))))
+       node0
+  then (match jget
+                ('a'::('t'::('t'::('r'::('i'::('b'::('u'::('t'::('e'::('s'::[]))))))))))
+                node0 with
+        | Ok al ->
+          (match jlist al with
+           | Ok l ->
+             mapM (fun a ->
+               match jget ('n'::('a'::('m'::('e'::[])))) a with
+               | Ok n0 ->
+                 (match jstr n0 with
+                  | Ok name0 ->
+                    let v =
+                      match a with
+                      | VMap kv ->
+                        (match assoc ('v'::('a'::('l'::('u'::('e'::[]))))) kv with
+                         | Some x -> x
+                         | None -> VNone)
+                      | _ -> VNone
+                    in
+                    Ok { a_name = name0; a_dom = None; a_default = v;
+                    a_null = VNone }
+                  | Err e -> Err e)
+               | Err e -> Err e) l
+           | Err e -> Err e)
+        | Err e -> Err e)
+  else Ok []
+
+(** val json_abstract : aval -> aval **)
+
+let json_abstract v = match v with
+| VStr s -> VBool (eqb0 s ('T'::('r'::('u'::('e'::[])))))
+| _ -> v
+
+(** val json_relation_cards : char list -> aval -> nat -> (z * z) result **)
+
+let json_relation_cards rtype rel n0 =
+  if eqb0 rtype jt_OPTIONAL
+  then Ok (Z0, (Zpos XH))
+  else if eqb0 rtype jt_MANDATORY
+       then Ok ((Zpos XH), (Zpos XH))
+       else if eqb0 rtype jt_XOR
+            then Ok ((Zpos XH), (Zpos XH))
+            else if eqb0 rtype jt_OR
+                 then Ok ((Zpos XH), (Z.of_nat n0))
+                 else if eqb0 rtype jt_MUTEX
+                      then Ok (Z0, (Zpos XH))
+                      else if eqb0 rtype jt_CARDINALITY
+                           then (match jget
+                                         ('c'::('a'::('r'::('d'::('_'::('m'::('i'::('n'::[]))))))))
+                                         rel with
+                                 | Ok a ->
+                                   (match jget
+                                            ('c'::('a'::('r'::('d'::('_'::('m'::('a'::('x'::[]))))))))
+                                            rel with
+                                    | Ok b ->
+                                      (match jint a with
+                                       | Ok a' ->
+                                         (match jint b with
+                                          | Ok b' -> Ok (a', b')
+                                          | Err e -> Err e)
+                                       | Err e -> Err e)
+                                    | Err e -> Err e)
+                                 | Err e -> Err e)
+                           else Err ParsingException
+
+(** val json_parse_tree : nat -> path -> ptr -> aval -> pfeature result **)
+
+let rec json_parse_tree fuel here parent node0 =
+  match fuel with
+  | O -> Err OtherExn
+  | S fuel' ->
+    (match jget ('n'::('a'::('m'::('e'::[])))) node0 with
+     | Ok n0 ->
+       (match jget ('a'::('b'::('s'::('t'::('r'::('a'::('c'::('t'::[]))))))))
+                node0 with
+        | Ok ab ->
+          (match jstr n0 with
+           | Ok name0 ->
+             (match json_read_attributes node0 with
+              | Ok attrs ->
+                let info0 = { f_name = name0; f_abstract =
+                  (json_abstract ab); f_type = TBoolean; f_cmin = (Zpos XH);
+                  f_cmax = (Zpos XH); f_attrs = attrs }
+                in
+                let relsr =
+                  if jhas
+                       ('r'::('e'::('l'::('a'::('t'::('i'::('o'::('n'::('s'::[])))))))))
+                       node0
+                  then (match jget
+                                ('r'::('e'::('l'::('a'::('t'::('i'::('o'::('n'::('s'::[])))))))))
+                                node0 with
+                        | Ok rl ->
+                          (match jlist rl with
+                           | Ok rels0 ->
+                             let rec go k = function
+                             | [] -> Ok []
+                             | rel :: rest ->
+                               (match jget
+                                        ('c'::('h'::('i'::('l'::('d'::('r'::('e'::('n'::[]))))))))
+                                        rel with
+                                | Ok chv ->
+                                  (match jlist chv with
+                                   | Ok chl ->
+                                     (match let rec goc j = function
+                                            | [] -> Ok []
+                                            | c :: cs ->
+                                              (match json_parse_tree fuel'
+                                                       (app here ((k,
+                                                         j) :: [])) (PPath
+                                                       here) c with
+                                               | Ok pc ->
+                                                 (match goc (S j) cs with
+                                                  | Ok pcs -> Ok (pc :: pcs)
+                                                  | Err e -> Err e)
+                                               | Err e -> Err e)
+                                            in goc O chl with
+                                      | Ok children0 ->
+                                        (match jget
+                                                 ('t'::('y'::('p'::('e'::[]))))
+                                                 rel with
+                                         | Ok tv ->
+                                           (match jstr tv with
+                                            | Ok rtype ->
+                                              (match json_relation_cards
+                                                       rtype rel
+                                                       (length children0) with
+                                               | Ok a0 ->
+                                                 let (a, b) = a0 in
+                                                 (match go (S k) rest with
+                                                  | Ok prs ->
+                                                    Ok ((PRelation ((PPath
+                                                      here), a, b,
+                                                      children0)) :: prs)
+                                                  | Err e -> Err e)
+                                               | Err e -> Err e)
+                                            | Err e -> Err e)
+                                         | Err e -> Err e)
+                                      | Err e -> Err e)
+                                   | Err e -> Err e)
+                                | Err e -> Err e)
+                             in go O rels0
+                           | Err e -> Err e)
+                        | Err e -> Err e)
+                  else Ok []
+                in
+                (match relsr with
+                 | Ok prs ->
+                   Ok (PFeature (info0, parent,
+                     (map (fun _ -> PPath here) attrs), prs))
+                 | Err e -> Err e)
+              | Err e -> Err e)
+           | Err e -> Err e)
+        | Err e -> Err e)
+     | Err e -> Err e)
+
+(** val data_of_json : aval -> ndata result **)
+
+let data_of_json = function
+| VBool b -> Ok (DBool b)
+| VInt z0 -> Ok (DInt z0)
+| VFloat r -> Ok (DFloat r)
+| VStr s -> Ok (DStr s)
+| _ -> Err OtherExn
+
+(** val reduce_op : astop -> node list -> node result **)
+
+let reduce_op o = function
+| [] -> Err TypeError
+| x :: xs -> Ok (fold_left (fun acc y -> bin o acc y) xs x)
+
+(** val nth_operand : aval list -> nat -> aval result **)
+
+let nth_operand l i =
+  match nth_error l i with
+  | Some x -> Ok x
+  | None -> Err IndexError
+
+(** val json_parse_ctc : nat -> aval -> node result **)
+
+let rec json_parse_ctc fuel info0 =
+  match fuel with
+  | O -> Err OtherExn
+  | S fuel' ->
+    (match jget ('t'::('y'::('p'::('e'::[])))) info0 with
+     | Ok tv ->
+       (match jget ('o'::('p'::('e'::('r'::('a'::('n'::('d'::('s'::[]))))))))
+                info0 with
+        | Ok ov ->
+          (match jstr tv with
+           | Ok ty ->
+             (match jlist ov with
+              | Ok ops ->
+                let sub0 = fun i ->
+                  match nth_operand ops i with
+                  | Ok x -> json_parse_ctc fuel' x
+                  | Err e -> Err e
+                in
+                let bin2 = fun o ->
+                  match sub0 O with
+                  | Ok a ->
+                    (match sub0 (S O) with
+                     | Ok b -> Ok (bin o a b)
+                     | Err e -> Err e)
+                  | Err e -> Err e
+                in
+                if eqb0 ty jt_FEATURE
+                then (match nth_operand ops O with
+                      | Ok x ->
+                        (match data_of_json x with
+                         | Ok d -> Ok (Node (d, None, None))
+                         | Err e -> Err e)
+                      | Err e -> Err e)
+                else if eqb0 ty (astop_value NOT)
+                     then (match sub0 O with
+                           | Ok a -> Ok (un NOT a)
+                           | Err e -> Err e)
+                     else if eqb0 ty (astop_value IMPLIES)
+                          then bin2 IMPLIES
+                          else if eqb0 ty (astop_value REQUIRES)
+                               then bin2 REQUIRES
+                               else if eqb0 ty (astop_value EXCLUDES)
+                                    then bin2 EXCLUDES
+                                    else if eqb0 ty (astop_value EQUIVALENCE)
+                                         then bin2 EQUIVALENCE
+                                         else if eqb0 ty (astop_value AND)
+                                              then (match mapM
+                                                            (json_parse_ctc
+                                                              fuel') ops with
+                                                    | Ok l -> reduce_op AND l
+                                                    | Err e -> Err e)
+                                              else if eqb0 ty (astop_value OR)
+                                                   then (match mapM
+                                                                 (json_parse_ctc
+                                                                   fuel') ops with
+                                                         | Ok l ->
+                                                           reduce_op OR l
+                                                         | Err e -> Err e)
+                                                   else if eqb0 ty
+                                                             (astop_value XOR)
+                                                        then (match mapM
+                                                                    (json_parse_ctc
+                                                                    fuel') ops with
+                                                              | Ok l ->
+                                                                reduce_op XOR
+                                                                  l
+                                                              | Err e -> Err e)
+                                                        else Err
+                                                               ParsingException
+              | Err e -> Err e)
+           | Err e -> Err e)
+        | Err e -> Err e)
+     | Err e -> Err e)
+
+(** val aval_depth : aval -> nat **)
+
+let rec aval_depth = function
+| VList l -> S (fold_right Nat.max O (map aval_depth l))
+| VMap kv -> S (fold_right Nat.max O (map (fun p -> aval_depth (snd p)) kv))
+| _ -> S O
+
+(** val json_read : aval -> pfm result **)
+
+let json_read doc =
+  match jget ('f'::('e'::('a'::('t'::('u'::('r'::('e'::('s'::[])))))))) doc with
+  | Ok fv ->
+    (match jget
+             ('c'::('o'::('n'::('s'::('t'::('r'::('a'::('i'::('n'::('t'::('s'::[])))))))))))
+             doc with
+     | Ok cv ->
+       (match json_parse_tree (aval_depth fv) [] PNone fv with
+        | Ok proot_ ->
+          (match jlist cv with
+           | Ok cl ->
+             (match mapM (fun ci ->
+                      match jget ('n'::('a'::('m'::('e'::[])))) ci with
+                      | Ok nv ->
+                        (match jget ('a'::('s'::('t'::[]))) ci with
+                         | Ok av ->
+                           (match jstr nv with
+                            | Ok name0 ->
+                              (match json_parse_ctc (aval_depth av) av with
+                               | Ok n0 -> Ok { c_name = name0; c_ast = n0 }
+                               | Err e -> Err e)
+                            | Err e -> Err e)
+                         | Err e -> Err e)
+                      | Err e -> Err e) cl with
+              | Ok cs -> Ok { proot = proot_; pctcs = cs }
+              | Err e -> Err e)
+           | Err e -> Err e)
+        | Err e -> Err e)
+     | Err e -> Err e)
+  | Err e -> Err e
+
+(** val glencoe_ctc_type : astop -> char list option **)
+
+let glencoe_ctc_type = function
+| REQUIRES ->
+  Some
+    ('I'::('m'::('p'::('l'::('i'::('e'::('s'::('T'::('e'::('r'::('m'::[])))))))))))
+| EXCLUDES ->
+  Some
+    ('E'::('x'::('c'::('l'::('u'::('d'::('e'::('s'::('T'::('e'::('r'::('m'::[]))))))))))))
+| AND -> Some ('A'::('n'::('d'::('T'::('e'::('r'::('m'::[])))))))
+| OR -> Some ('O'::('r'::('T'::('e'::('r'::('m'::[]))))))
+| XOR -> Some ('X'::('o'::('r'::('T'::('e'::('r'::('m'::[])))))))
+| IMPLIES ->
+  Some
+    ('I'::('m'::('p'::('l'::('i'::('e'::('s'::('T'::('e'::('r'::('m'::[])))))))))))
+| NOT -> Some ('N'::('o'::('t'::('T'::('e'::('r'::('m'::[])))))))
+| EQUIVALENCE ->
+  Some
+    ('E'::('q'::('u'::('i'::('v'::('a'::('l'::('e'::('n'::('t'::('T'::('e'::('r'::('m'::[]))))))))))))))
+| _ -> None
+
+(** val dict_set :
+    (char list * aval) list -> char list -> aval -> (char list * aval) list **)
+
+let rec dict_set kv k v =
+  match kv with
+  | [] -> (k, v) :: []
+  | p :: rest ->
+    let (k', v') = p in
+    if eqb0 k k' then (k, v) :: rest else (k', v') :: (dict_set rest k v)
+
+(** val glencoe_feature_type : feature -> char list **)
+
+let glencoe_feature_type f =
+  if feat_is_alternative_group f
+  then 'X'::('O'::('R'::[]))
+  else if feat_is_or_group f
+       then 'O'::('R'::[])
+       else if (||) (feat_is_cardinality_group f) (feat_is_mutex_group f)
+            then 'G'::('E'::('N'::('O'::('R'::[]))))
+            else 'F'::('E'::('A'::('T'::('U'::('R'::('E'::[]))))))
+
+(** val glencoe_feature_info : feature option -> feature -> aval **)
+
+let glencoe_feature_info p f =
+  let ty = glencoe_feature_type f in
+  VMap
+  (app ((('n'::('a'::('m'::('e'::[])))), (VStr
+    (name f))) :: ((('o'::('p'::('t'::('i'::('o'::('n'::('a'::('l'::[])))))))),
+    (VBool
+    (negb (feat_is_mandatory p f)))) :: ((('t'::('y'::('p'::('e'::[])))),
+    (VStr ty)) :: ((('n'::('o'::('t'::('e'::[])))), (VStr [])) :: []))))
+    (if eqb0 ty ('G'::('E'::('N'::('O'::('R'::[])))))
+     then (match find (fun r -> (||) (rel_is_cardinal r) (rel_is_mutex r))
+                   (rels f) with
+           | Some r ->
+             (('m'::('i'::('n'::[]))), (VInt
+               (r_min r))) :: ((('m'::('a'::('x'::[]))), (VInt
+               (r_max r))) :: [])
+           | None -> [])
+     else []))
+
+(** val glencoe_features : fm -> aval **)
+
+let glencoe_features m =
+  VMap
+    (fold_left (fun acc pf ->
+      dict_set acc (name (snd pf)) (glencoe_feature_info (fst pf) (snd pf)))
+      (sort_by (fun pf -> name (snd pf)) str_ltb (get_features_ctx m)) [])
+
+(** val glencoe_tree : feature -> aval **)
+
+let rec glencoe_tree = function
+| Feature (i, rs) ->
+  let kid_trees =
+    sort_by fst str_ltb
+      (flat_map (fun r ->
+        let Relation (_, _, cs) = r in
+        map (fun c -> ((name c), (glencoe_tree c))) cs) rs)
+  in
+  VMap ((('i'::('d'::[])), (VStr
+  i.f_name)) :: (match kid_trees with
+                 | [] -> []
+                 | _ :: _ ->
+                   (('c'::('h'::('i'::('l'::('d'::('r'::('e'::('n'::[])))))))),
+                     (VList (map snd kid_trees))) :: []))
+
+(** val glencoe_ctc : node -> aval result **)
+
+let rec glencoe_ctc n0 = match n0 with
+| Node (d, l, r) ->
+  if is_term n0
+  then Ok (VMap ((('t'::('y'::('p'::('e'::[])))), (VStr
+         ('F'::('e'::('a'::('t'::('u'::('r'::('e'::('T'::('e'::('r'::('m'::[]))))))))))))) :: ((('o'::('p'::('e'::('r'::('a'::('n'::('d'::('s'::[])))))))),
+         (VList ((VStr (data_str d)) :: []))) :: [])))
+  else (match d with
+        | DOp o ->
+          (match glencoe_ctc_type o with
+           | Some ty ->
+             (match l with
+              | Some a ->
+                (match glencoe_ctc a with
+                 | Ok ja ->
+                   (match r with
+                    | Some b ->
+                      (match glencoe_ctc b with
+                       | Ok jb ->
+                         Ok (VMap ((('t'::('y'::('p'::('e'::[])))), (VStr
+                           ty)) :: ((('o'::('p'::('e'::('r'::('a'::('n'::('d'::('s'::[])))))))),
+                           (VList (ja :: (jb :: [])))) :: [])))
+                       | Err e -> Err e)
+                    | None ->
+                      Ok (VMap ((('t'::('y'::('p'::('e'::[])))), (VStr
+                        ty)) :: ((('o'::('p'::('e'::('r'::('a'::('n'::('d'::('s'::[])))))))),
+                        (VList (ja :: []))) :: []))))
+                 | Err e -> Err e)
+              | None -> Err AttributeError)
+           | None -> Err KeyError)
+        | _ -> Err OtherExn)
+
+(** val glencoe_write : fm -> aval result **)
+
+let glencoe_write m =
+  let fid = VStr
+    (append ('F'::('M'::('_'::[]))) (str_remove_char ' ' (name m.root)))
+  in
+  let feats = glencoe_features m in
+  let tree = glencoe_tree m.root in
+  (match let rec go cs acc =
+           match cs with
+           | [] -> Ok acc
+           | c :: cs' ->
+             (match glencoe_ctc c.c_ast with
+              | Ok j -> go cs' (dict_set acc c.c_name j)
+              | Err e -> Err e)
+         in go m.ctcs [] with
+   | Ok cinfo0 ->
+     Ok (VMap ((('i'::('d'::[])), fid) :: ((('n'::('a'::('m'::('e'::[])))),
+       fid) :: ((('f'::('e'::('a'::('t'::('u'::('r'::('e'::('s'::[])))))))),
+       feats) :: ((('t'::('r'::('e'::('e'::[])))),
+       tree) :: ((('c'::('o'::('n'::('s'::('t'::('r'::('a'::('i'::('n'::('t'::('s'::[]))))))))))),
+       (VMap cinfo0)) :: []))))))
+   | Err e -> Err e)
+
+(** val jbool : aval -> bool result **)
+
+let jbool = function
+| VBool b -> Ok b
+| _ -> Err OtherExn
+
+(** val finfo_get : aval -> aval -> char list -> aval result **)
+
+let finfo_get features_info id key =
+  match jstr id with
+  | Ok ids ->
+    (match jget ids features_info with
+     | Ok fi -> jget key fi
+     | Err e -> Err e)
+  | Err e -> Err e
+
+(** val count_true_prefix : bool list -> nat -> nat **)
+
+let rec count_true_prefix l = function
+| O -> O
+| S n' ->
+  (match l with
+   | [] -> O
+   | b :: l' -> add (if b then S O else O) (count_true_prefix l' n'))
+
+(** val glencoe_parse_tree :
+    nat -> aval -> path -> ptr -> aval -> pfeature result **)
+
+let rec glencoe_parse_tree fuel finfo_ here parent node0 =
+  match fuel with
+  | O -> Err OtherExn
+  | S fuel' ->
+    (match jget ('i'::('d'::[])) node0 with
+     | Ok fid ->
+       (match finfo_get finfo_ fid ('t'::('y'::('p'::('e'::[])))) with
+        | Ok tyv ->
+          (match finfo_get finfo_ fid ('n'::('a'::('m'::('e'::[])))) with
+           | Ok nmv ->
+             (match jstr tyv with
+              | Ok fty ->
+                (match jstr nmv with
+                 | Ok fname ->
+                   let info0 = mk_info fname in
+                   let is_plain =
+                     eqb0 fty
+                       ('F'::('E'::('A'::('T'::('U'::('R'::('E'::[])))))))
+                   in
+                   if jhas
+                        ('c'::('h'::('i'::('l'::('d'::('r'::('e'::('n'::[]))))))))
+                        node0
+                   then (match jget
+                                 ('c'::('h'::('i'::('l'::('d'::('r'::('e'::('n'::[]))))))))
+                                 node0 with
+                         | Ok chv ->
+                           (match jlist chv with
+                            | Ok chl ->
+                              let flags =
+                                map (fun c ->
+                                  match jget ('i'::('d'::[])) c with
+                                  | Ok cid ->
+                                    (match finfo_get finfo_ cid
+                                             ('o'::('p'::('t'::('i'::('o'::('n'::('a'::('l'::[])))))))) with
+                                     | Ok ov ->
+                                       (match jbool ov with
+                                        | Ok b -> Some b
+                                        | Err _ -> None)
+                                     | Err _ -> None)
+                                  | Err _ -> None) chl
+                              in
+                              let mand =
+                                map (fun o ->
+                                  match o with
+                                  | Some y -> if y then false else true
+                                  | None -> false) flags
+                              in
+                              let n_mand = length (filter (fun b -> b) mand)
+                              in
+                              let where_ = fun p ->
+                                if is_plain
+                                then (p, O)
+                                else if nth p mand false
+                                     then ((count_true_prefix mand p), O)
+                                     else (n_mand,
+                                            (sub p (count_true_prefix mand p)))
+                              in
+                              (match let rec goc p = function
+                                     | [] -> Ok []
+                                     | c :: cs ->
+                                       (match glencoe_parse_tree fuel' finfo_
+                                                (app here ((where_ p) :: []))
+                                                (PPath here) c with
+                                        | Ok pc ->
+                                          (match jget ('i'::('d'::[])) c with
+                                           | Ok cid ->
+                                             (match finfo_get finfo_ cid
+                                                      ('o'::('p'::('t'::('i'::('o'::('n'::('a'::('l'::[])))))))) with
+                                              | Ok ov ->
+                                                (match jbool ov with
+                                                 | Ok opt ->
+                                                   (match goc (S p) cs with
+                                                    | Ok rest ->
+                                                      Ok ((pc, opt) :: rest)
+                                                    | Err e -> Err e)
+                                                 | Err e -> Err e)
+                                              | Err e -> Err e)
+                                           | Err e -> Err e)
+                                        | Err e -> Err e)
+                                     in goc O chl with
+                               | Ok kids ->
+                                 if is_plain
+                                 then Ok (PFeature (info0, parent, [],
+                                        (map (fun ko -> PRelation ((PPath
+                                          here),
+                                          (if snd ko then Z0 else Zpos XH),
+                                          (Zpos XH), ((fst ko) :: []))) kids)))
+                                 else let singles =
+                                        map (fun ko -> PRelation ((PPath
+                                          here), (Zpos XH), (Zpos XH),
+                                          ((fst ko) :: [])))
+                                          (filter (fun ko -> negb (snd ko))
+                                            kids)
+                                      in
+                                      let group = map fst (filter snd kids) in
+                                      let grp =
+                                        if eqb0 fty ('X'::('O'::('R'::[])))
+                                        then Ok ((Zpos XH), (Zpos XH))
+                                        else if eqb0 fty ('O'::('R'::[]))
+                                             then Ok ((Zpos XH),
+                                                    (Z.of_nat (length group)))
+                                             else if eqb0 fty
+                                                       ('G'::('E'::('N'::('O'::('R'::[])))))
+                                                  then (match finfo_get
+                                                                finfo_ fid
+                                                                ('m'::('i'::('n'::[]))) with
+                                                        | Ok a ->
+                                                          (match finfo_get
+                                                                   finfo_ fid
+                                                                   ('m'::('a'::('x'::[]))) with
+                                                           | Ok b ->
+                                                             (match jint a with
+                                                              | Ok a' ->
+                                                                (match 
+                                                                 jint b with
+                                                                 | Ok b' ->
+                                                                   Ok (a', b')
+                                                                 | Err e ->
+                                                                   Err e)
+                                                              | Err e -> Err e)
+                                                           | Err e -> Err e)
+                                                        | Err e -> Err e)
+                                                  else (match singles with
+                                                        | [] ->
+                                                          Err
+                                                            UnboundLocalError
+                                                        | _ :: _ ->
+                                                          Err OtherExn)
+                                      in
+                                      (match grp with
+                                       | Ok a0 ->
+                                         let (a, b) = a0 in
+                                         Ok (PFeature (info0, parent, [],
+                                         (app singles ((PRelation ((PPath
+                                           here), a, b, group)) :: []))))
+                                       | Err e -> Err e)
+                               | Err e -> Err e)
+                            | Err e -> Err e)
+                         | Err e -> Err e)
+                   else Ok (PFeature (info0, parent, [], []))
+                 | Err e -> Err e)
+              | Err e -> Err e)
+           | Err e -> Err e)
+        | Err e -> Err e)
+     | Err e -> Err e)
+
+(** val glencoe_parse_ctc : nat -> aval -> aval -> node result **)
+
+let rec glencoe_parse_ctc fuel finfo_ info0 =
+  match fuel with
+  | O -> Err OtherExn
+  | S fuel' ->
+    (match jget ('t'::('y'::('p'::('e'::[])))) info0 with
+     | Ok tv ->
+       (match jget ('o'::('p'::('e'::('r'::('a'::('n'::('d'::('s'::[]))))))))
+                info0 with
+        | Ok ov ->
+          (match jstr tv with
+           | Ok ty ->
+             (match jlist ov with
+              | Ok ops ->
+                let sub0 = fun i ->
+                  match nth_operand ops i with
+                  | Ok x -> glencoe_parse_ctc fuel' finfo_ x
+                  | Err e -> Err e
+                in
+                let bin2 = fun o ->
+                  match sub0 O with
+                  | Ok a ->
+                    (match sub0 (S O) with
+                     | Ok b -> Ok (bin o a b)
+                     | Err e -> Err e)
+                  | Err e -> Err e
+                in
+                let nary = fun o ->
+                  match mapM (glencoe_parse_ctc fuel' finfo_) ops with
+                  | Ok l -> reduce_op o l
+                  | Err e -> Err e
+                in
+                if eqb0 ty
+                     ('F'::('e'::('a'::('t'::('u'::('r'::('e'::('T'::('e'::('r'::('m'::[])))))))))))
+                then (match nth_operand ops O with
+                      | Ok x ->
+                        (match finfo_get finfo_ x
+                                 ('n'::('a'::('m'::('e'::[])))) with
+                         | Ok nv ->
+                           (match jstr nv with
+                            | Ok nm -> Ok (term nm)
+                            | Err e -> Err e)
+                         | Err e -> Err e)
+                      | Err e -> Err e)
+                else if eqb0 ty
+                          ('N'::('o'::('t'::('T'::('e'::('r'::('m'::[])))))))
+                     then (match sub0 O with
+                           | Ok a -> Ok (un NOT a)
+                           | Err e -> Err e)
+                     else if eqb0 ty
+                               ('I'::('m'::('p'::('l'::('i'::('e'::('s'::('T'::('e'::('r'::('m'::[])))))))))))
+                          then bin2 IMPLIES
+                          else if eqb0 ty
+                                    ('E'::('x'::('c'::('l'::('u'::('d'::('e'::('s'::('T'::('e'::('r'::('m'::[]))))))))))))
+                               then bin2 EXCLUDES
+                               else if eqb0 ty
+                                         ('E'::('q'::('u'::('i'::('v'::('a'::('l'::('e'::('n'::('t'::('T'::('e'::('r'::('m'::[]))))))))))))))
+                                    then bin2 EQUIVALENCE
+                                    else if eqb0 ty
+                                              ('A'::('n'::('d'::('T'::('e'::('r'::('m'::[])))))))
+                                         then nary AND
+                                         else if eqb0 ty
+                                                   ('O'::('r'::('T'::('e'::('r'::('m'::[]))))))
+                                              then nary OR
+                                              else if eqb0 ty
+                                                        ('X'::('o'::('r'::('T'::('e'::('r'::('m'::[])))))))
+                                                   then nary XOR
+                                                   else Err FlamaException
+              | Err e -> Err e)
+           | Err e -> Err e)
+        | Err e -> Err e)
+     | Err e -> Err e)
+
+(** val glencoe_read : aval -> pfm result **)
+
+let glencoe_read doc =
+  match jget ('f'::('e'::('a'::('t'::('u'::('r'::('e'::('s'::[])))))))) doc with
+  | Ok fv ->
+    (match jget ('t'::('r'::('e'::('e'::[])))) doc with
+     | Ok tv ->
+       (match jget
+                ('c'::('o'::('n'::('s'::('t'::('r'::('a'::('i'::('n'::('t'::('s'::[])))))))))))
+                doc with
+        | Ok cv ->
+          (match glencoe_parse_tree (aval_depth tv) fv [] PNone tv with
+           | Ok proot_ ->
+             (match cv with
+              | VMap ckv ->
+                (match mapM (fun kc ->
+                         match glencoe_parse_ctc (aval_depth (snd kc)) fv
+                                 (snd kc) with
+                         | Ok n0 -> Ok { c_name = (fst kc); c_ast = n0 }
+                         | Err e -> Err e) ckv with
+                 | Ok cs -> Ok { proot = proot_; pctcs = cs }
+                 | Err e -> Err e)
+              | _ -> Err AttributeError)
+           | Err e -> Err e)
+        | Err e -> Err e)
+     | Err e -> Err e)
+  | Err e -> Err e
+
+(** val fide_TAG_FEATUREMODEL : char list **)
+
+let fide_TAG_FEATUREMODEL =
+  'f'::('e'::('a'::('t'::('u'::('r'::('e'::('M'::('o'::('d'::('e'::('l'::[])))))))))))
+
+(** val fide_TAG_STRUCT : char list **)
+
+let fide_TAG_STRUCT =
+  's'::('t'::('r'::('u'::('c'::('t'::[])))))
+
+(** val fide_TAG_FEATURE : char list **)
+
+let fide_TAG_FEATURE =
+  'f'::('e'::('a'::('t'::('u'::('r'::('e'::[]))))))
+
+(** val fide_TAG_CONSTRAINTS : char list **)
+
+let fide_TAG_CONSTRAINTS =
+  'c'::('o'::('n'::('s'::('t'::('r'::('a'::('i'::('n'::('t'::('s'::[]))))))))))
+
+(** val fide_TAG_GRAPHICS : char list **)
+
+let fide_TAG_GRAPHICS =
+  'g'::('r'::('a'::('p'::('h'::('i'::('c'::('s'::[])))))))
+
+(** val fide_TAG_DESCRIPTION : char list **)
+
+let fide_TAG_DESCRIPTION =
+  'd'::('e'::('s'::('c'::('r'::('i'::('p'::('t'::('i'::('o'::('n'::[]))))))))))
+
+(** val fide_TAG_AND : char list **)
+
+let fide_TAG_AND =
+  'a'::('n'::('d'::[]))
+
+(** val fide_TAG_OR : char list **)
+
+let fide_TAG_OR =
+  'o'::('r'::[])
+
+(** val fide_TAG_ALT : char list **)
+
+let fide_TAG_ALT =
+  'a'::('l'::('t'::[]))
+
+(** val fide_TAG_RULE : char list **)
+
+let fide_TAG_RULE =
+  'r'::('u'::('l'::('e'::[])))
+
+(** val fide_TAG_VAR : char list **)
+
+let fide_TAG_VAR =
+  'v'::('a'::('r'::[]))
+
+(** val fide_TAG_NOT : char list **)
+
+let fide_TAG_NOT =
+  'n'::('o'::('t'::[]))
+
+(** val fide_TAG_IMP : char list **)
+
+let fide_TAG_IMP =
+  'i'::('m'::('p'::[]))
+
+(** val fide_TAG_DISJ : char list **)
+
+let fide_TAG_DISJ =
+  'd'::('i'::('s'::('j'::[])))
+
+(** val fide_TAG_CONJ : char list **)
+
+let fide_TAG_CONJ =
+  'c'::('o'::('n'::('j'::[])))
+
+(** val fide_TAG_EQ : char list **)
+
+let fide_TAG_EQ =
+  'e'::('q'::[])
+
+(** val fide_ATTRIB_NAME : char list **)
+
+let fide_ATTRIB_NAME =
+  'n'::('a'::('m'::('e'::[])))
+
+(** val fide_ATTRIB_ABSTRACT : char list **)
+
+let fide_ATTRIB_ABSTRACT =
+  'a'::('b'::('s'::('t'::('r'::('a'::('c'::('t'::[])))))))
+
+(** val fide_ATTRIB_MANDATORY : char list **)
+
+let fide_ATTRIB_MANDATORY =
+  'm'::('a'::('n'::('d'::('a'::('t'::('o'::('r'::('y'::[]))))))))
+
+(** val fide_ctc_type : astop -> char list option **)
+
+let fide_ctc_type = function
+| REQUIRES -> Some ('i'::('m'::('p'::[])))
+| EXCLUDES -> Some ('i'::('m'::('p'::('n'::[]))))
+| AND -> Some ('c'::('o'::('n'::('j'::[]))))
+| OR -> Some ('d'::('i'::('s'::('j'::[]))))
+| XOR -> Some ('a'::('l'::('t'::[])))
+| IMPLIES -> Some ('i'::('m'::('p'::[])))
+| NOT -> Some ('n'::('o'::('t'::[])))
+| EQUIVALENCE -> Some ('e'::('q'::[]))
+| _ -> None
+
+type xml =
+| Elem of char list * (char list * char list) list * char list option
+   * xml list
+
+(** val x_tag : xml -> char list **)
+
+let x_tag = function
+| Elem (t, _, _, _) -> t
+
+(** val x_attrs : xml -> (char list * char list) list **)
+
+let x_attrs = function
+| Elem (_, a, _, _) -> a
+
+(** val x_children : xml -> xml list **)
+
+let x_children = function
+| Elem (_, _, _, c) -> c
+
+(** val sassoc :
+    char list -> (char list * char list) list -> char list option **)
+
+let rec sassoc k = function
+| [] -> None
+| p :: rest -> let (k', v) = p in if eqb0 k k' then Some v else sassoc k rest
+
+(** val aval_truthy : aval -> bool **)
+
+let aval_truthy = function
+| VNone -> false
+| VBool b -> b
+| VInt z0 -> negb (Z.eqb z0 Z0)
+| VFloat r ->
+  negb
+    ((||) (eqb0 r ('0'::('.'::('0'::[]))))
+      (eqb0 r ('-'::('0'::('.'::('0'::[]))))))
+| VStr s -> negb (eqb0 s [])
+| VList l -> negb (Nat.eqb (length l) O)
+| VMap kv -> negb (Nat.eqb (length kv) O)
+
+(** val fide_tag : feature -> char list **)
+
+let fide_tag f =
+  if feat_is_leaf f
+  then fide_TAG_FEATURE
+  else if feat_is_or_group f
+       then fide_TAG_OR
+       else if feat_is_alternative_group f then fide_TAG_ALT else fide_TAG_AND
+
+(** val fide_attributes :
+    feature option -> feature -> (char list * char list) list **)
+
+let fide_attributes p f =
+  app
+    (if feat_is_mandatory p f
+     then (('m'::('a'::('n'::('d'::('a'::('t'::('o'::('r'::('y'::[]))))))))),
+            ('t'::('r'::('u'::('e'::[]))))) :: []
+     else [])
+    (app
+      (if aval_truthy (info f).f_abstract
+       then (('a'::('b'::('s'::('t'::('r'::('a'::('c'::('t'::[])))))))),
+              ('t'::('r'::('u'::('e'::[]))))) :: []
+       else []) ((('n'::('a'::('m'::('e'::[])))), (name f)) :: []))
+
+(** val fide_elem : feature option -> feature -> xml **)
+
+let rec fide_elem p f = match f with
+| Feature (_, rs) ->
+  Elem ((fide_tag f), (fide_attributes p f), None,
+    (flat_map (fun r ->
+      let Relation (_, _, cs) = r in map (fide_elem (Some f)) cs) rs))
+
+type cinfo =
+| CVar of char list
+| COp of char list * cinfo list
+
+(** val fide_ctc_info : node -> cinfo result **)
+
+let rec fide_ctc_info n0 = match n0 with
+| Node (d, l, r) ->
+  if is_term n0
+  then Ok (CVar (data_str d))
+  else (match d with
+        | DOp o ->
+          (match o with
+           | EXCLUDES ->
+             (match l with
+              | Some a ->
+                (match fide_ctc_info a with
+                 | Ok ja ->
+                   (match r with
+                    | Some b ->
+                      (match fide_ctc_info b with
+                       | Ok jb ->
+                         Ok (COp (fide_TAG_IMP, (ja :: ((COp (fide_TAG_NOT,
+                           (jb :: []))) :: []))))
+                       | Err e -> Err e)
+                    | None -> Err AttributeError)
+                 | Err e -> Err e)
+              | None -> Err AttributeError)
+           | _ ->
+             (match fide_ctc_type o with
+              | Some ty ->
+                (match l with
+                 | Some a ->
+                   (match fide_ctc_info a with
+                    | Ok ja ->
+                      (match r with
+                       | Some b ->
+                         (match fide_ctc_info b with
+                          | Ok jb -> Ok (COp (ty, (ja :: (jb :: []))))
+                          | Err e -> Err e)
+                       | None -> Ok (COp (ty, (ja :: []))))
+                    | Err e -> Err e)
+                 | None -> Err AttributeError)
+              | None -> Err KeyError))
+        | _ -> Err OtherExn)
+
+(** val fide_ctc_elem : cinfo -> xml **)
+
+let rec fide_ctc_elem = function
+| CVar nm -> Elem (fide_TAG_VAR, [], (Some nm), [])
+| COp (ty, ops) ->
+  Elem (ty, [], None,
+    (if (||) (Nat.ltb (S O) (length ops)) (eqb0 ty fide_TAG_NOT)
+     then map fide_ctc_elem ops
+     else []))
+
+(** val fide_write : fm -> xml result **)
+
+let fide_write m =
+  match mapM (fun c ->
+          match pretty_str c.c_ast with
+          | Ok _ -> fide_ctc_info c.c_ast
+          | Err e -> Err e) m.ctcs with
+  | Ok infos ->
+    Ok (Elem (fide_TAG_FEATUREMODEL, [], None, ((Elem (fide_TAG_STRUCT, [],
+      None, ((fide_elem None m.root) :: []))) :: ((Elem
+      (fide_TAG_CONSTRAINTS, [], None,
+      (map (fun ci -> Elem (fide_TAG_RULE, [], None,
+        ((fide_ctc_elem ci) :: []))) infos))) :: []))))
+  | Err e -> Err e
+
+(** val fide_skipped : xml -> bool **)
+
+let fide_skipped x =
+  (||) (eqb0 (x_tag x) fide_TAG_GRAPHICS)
+    (eqb0 (x_tag x) fide_TAG_DESCRIPTION)
+
+(** val fide_read_features :
+    xml -> path -> ptr -> bool -> (pfeature * bool) list result **)
+
+let rec fide_read_features root_tree here parent is_struct =
+  let Elem (rtag, _, _, kids) = root_tree in
+  let parent_is_and = (&&) (eqb0 rtag fide_TAG_AND) (negb is_struct) in
+  (match let rec go p = function
+         | [] -> Ok []
+         | child :: rest ->
+           if fide_skipped child
+           then go p rest
+           else (match sassoc fide_ATTRIB_NAME (x_attrs child) with
+                 | Some nm ->
+                   let is_abs =
+                     match sassoc fide_ATTRIB_ABSTRACT (x_attrs child) with
+                     | Some v -> eqb0 v ('t'::('r'::('u'::('e'::[]))))
+                     | None -> false
+                   in
+                   let mand =
+                     match sassoc fide_ATTRIB_MANDATORY (x_attrs child) with
+                     | Some v -> eqb0 v ('t'::('r'::('u'::('e'::[]))))
+                     | None -> false
+                   in
+                   let info0 = { f_name = nm; f_abstract = (VBool is_abs);
+                     f_type = TBoolean; f_cmin = (Zpos XH); f_cmax = (Zpos
+                     XH); f_attrs = [] }
+                   in
+                   let my_path =
+                     if is_struct
+                     then []
+                     else if parent_is_and
+                          then app here ((p, O) :: [])
+                          else app here ((O, p) :: [])
+                   in
+                   let own =
+                     let ctag = x_tag child in
+                     if (||) (eqb0 ctag fide_TAG_ALT) (eqb0 ctag fide_TAG_OR)
+                     then (match fide_read_features child my_path (PPath
+                                   my_path) false with
+                           | Ok dc ->
+                             let cs = map fst dc in
+                             Ok ((PRelation ((PPath my_path), (Zpos XH),
+                             (if eqb0 ctag fide_TAG_ALT
+                              then Zpos XH
+                              else Z.of_nat (length cs)), cs)) :: [])
+                           | Err e -> Err e)
+                     else if eqb0 ctag fide_TAG_AND
+                          then (match fide_read_features child my_path (PPath
+                                        my_path) false with
+                                | Ok dc ->
+                                  Ok
+                                    (map (fun fm_ -> PRelation ((PPath
+                                      my_path),
+                                      (if snd fm_ then Zpos XH else Z0),
+                                      (Zpos XH), ((fst fm_) :: []))) dc)
+                                | Err e -> Err e)
+                          else Ok []
+                   in
+                   (match own with
+                    | Ok rels_ ->
+                      (match go (S p) rest with
+                       | Ok others ->
+                         Ok (((PFeature (info0, parent, [], rels_)),
+                           mand) :: others)
+                       | Err e -> Err e)
+                    | Err e -> Err e)
+                 | None -> Err KeyError)
+         in go O kids with
+   | Ok l -> (match l with
+              | [] -> Err FlamaException
+              | _ :: _ -> Ok l)
+   | Err e -> Err e)
+
+(** val fide_parse_rule : xml -> node result **)
+
+let rec fide_parse_rule = function
+| Elem (tag, _, text, kids) ->
+  let sub0 = fun i ->
+    match i with
+    | O ->
+      (match kids with
+       | [] -> Err IndexError
+       | k0 :: _ -> fide_parse_rule k0)
+    | S n0 ->
+      (match n0 with
+       | O ->
+         (match kids with
+          | [] -> Err IndexError
+          | _ :: l ->
+            (match l with
+             | [] -> Err IndexError
+             | k1 :: _ -> fide_parse_rule k1))
+       | S _ -> Err IndexError)
+  in
+  if eqb0 tag fide_TAG_VAR
+  then (match text with
+        | Some t -> Ok (term t)
+        | None -> Err OtherExn)
+  else if eqb0 tag fide_TAG_NOT
+       then (match sub0 O with
+             | Ok a -> Ok (un NOT a)
+             | Err e -> Err e)
+       else if eqb0 tag fide_TAG_IMP
+            then (match sub0 O with
+                  | Ok a ->
+                    (match sub0 (S O) with
+                     | Ok b -> Ok (bin IMPLIES a b)
+                     | Err e -> Err e)
+                  | Err e -> Err e)
+            else if eqb0 tag fide_TAG_EQ
+                 then (match sub0 O with
+                       | Ok a ->
+                         (match sub0 (S O) with
+                          | Ok b ->
+                            Ok (bin AND (bin IMPLIES a b) (bin IMPLIES b a))
+                          | Err e -> Err e)
+                       | Err e -> Err e)
+                 else if (||) (eqb0 tag fide_TAG_DISJ)
+                           (eqb0 tag fide_TAG_CONJ)
+                      then let o = if eqb0 tag fide_TAG_DISJ then OR else AND
+                           in
+                           (match kids with
+                            | [] -> Err IndexError
+                            | k0 :: ks ->
+                              (match fide_parse_rule k0 with
+                               | Ok n0 ->
+                                 let rec go acc = function
+                                 | [] -> Ok acc
+                                 | k :: ks' ->
+                                   (match fide_parse_rule k with
+                                    | Ok n1 -> go (bin o acc n1) ks'
+                                    | Err e -> Err e)
+                                 in go n0 ks
+                               | Err e -> Err e))
+                      else Err UnboundLocalError
+
+(** val fide_read_constraints : xml -> ctc list result **)
+
+let fide_read_constraints ctcs_root =
+  let rec go number = function
+  | [] -> Ok []
+  | r :: rest ->
+    (match let rec skip = function
+           | [] -> Err IndexError
+           | x :: l' -> if fide_skipped x then skip l' else Ok x
+           in skip (x_children r) with
+     | Ok rule ->
+       (match fide_parse_rule rule with
+        | Ok n0 ->
+          (match go (Z.add number (Zpos XH)) rest with
+           | Ok cs -> Ok ({ c_name = (z_to_string number); c_ast = n0 } :: cs)
+           | Err e -> Err e)
+        | Err e -> Err e)
+     | Err e -> Err e)
+  in go (Zpos XH) (x_children ctcs_root)
+
+(** val fide_read : xml -> pfm result **)
+
+let fide_read doc =
+  let rec go kids root_ cs =
+    match kids with
+    | [] ->
+      (match root_ with
+       | Some r -> Ok { proot = r; pctcs = cs }
+       | None -> Err FlamaException)
+    | k :: rest ->
+      if eqb0 (x_tag k) fide_TAG_STRUCT
+      then (match fide_read_features k [] PNone true with
+            | Ok l ->
+              go rest (option_map fst (last (map (fun x -> Some x) l) None))
+                cs
+            | Err e -> Err e)
+      else if eqb0 (x_tag k) fide_TAG_CONSTRAINTS
+           then (match fide_read_constraints k with
+                 | Ok c -> go rest root_ (app cs c)
+                 | Err e -> Err e)
+           else go rest root_ cs
+  in go (x_children doc) None []
+
+(** val xattr : char list -> xml -> char list option **)
+
+let xattr k x =
+  sassoc k (x_attrs x)
+
+(** val tag_is : char list -> xml -> bool **)
+
+let tag_is t x =
+  eqb0 (str_lower (x_tag x)) t
+
+(** val xint : char list -> xml -> z result **)
+
+let xint k x =
+  match xattr k x with
+  | Some s ->
+    (match string_to_z s with
+     | Some z0 -> Ok z0
+     | None -> Err ValueError)
+  | None -> Err ValueError
+
+(** val fama_parse_feature :
+    xml -> path -> ptr -> char list list -> (pfeature * char list list) result **)
+
+let rec fama_parse_feature el here parent seen =
+  let Elem (_, attrs, _, kids) = el in
+  let nm =
+    match sassoc ('n'::('a'::('m'::('e'::[])))) attrs with
+    | Some s -> s
+    | None -> 'N'::('o'::('n'::('e'::[])))
+  in
+  if list_existsb_eq nm seen
+  then Err DuplicatedFeature
+  else let info0 = mk_info nm in
+       (match let rec go k kids0 seen0 =
+                match kids0 with
+                | [] -> Ok ([], seen0)
+                | rel :: rest ->
+                  let is_bin =
+                    tag_is
+                      ('b'::('i'::('n'::('a'::('r'::('y'::('r'::('e'::('l'::('a'::('t'::('i'::('o'::('n'::[]))))))))))))))
+                      rel
+                  in
+                  let is_set =
+                    tag_is
+                      ('s'::('e'::('t'::('r'::('e'::('l'::('a'::('t'::('i'::('o'::('n'::[])))))))))))
+                      rel
+                  in
+                  if (||) is_bin is_set
+                  then let child_tag =
+                         if is_bin
+                         then 's'::('o'::('l'::('i'::('t'::('a'::('r'::('y'::('f'::('e'::('a'::('t'::('u'::('r'::('e'::[]))))))))))))))
+                         else 'g'::('r'::('o'::('u'::('p'::('e'::('d'::('f'::('e'::('a'::('t'::('u'::('r'::('e'::[])))))))))))))
+                       in
+                       (match let rec gor j items mn mx seen1 =
+                                match items with
+                                | [] -> Ok ((([], mn), mx), seen1)
+                                | it :: its ->
+                                  if tag_is child_tag it
+                                  then (match fama_parse_feature it
+                                                (app here ((k, j) :: []))
+                                                (PPath here) seen1 with
+                                        | Ok a ->
+                                          let (pc, seen') = a in
+                                          (match gor (S j) its mn mx seen' with
+                                           | Ok a0 ->
+                                             let (p, s2) = a0 in
+                                             let (p0, b) = p in
+                                             let (pcs, a1) = p0 in
+                                             Ok ((((pc :: pcs), a1), b), s2)
+                                           | Err e -> Err e)
+                                        | Err e -> Err e)
+                                  else if tag_is
+                                            ('c'::('a'::('r'::('d'::('i'::('n'::('a'::('l'::('i'::('t'::('y'::[])))))))))))
+                                            it
+                                       then (match xint
+                                                     ('m'::('i'::('n'::[])))
+                                                     it with
+                                             | Ok a ->
+                                               (match xint
+                                                        ('m'::('a'::('x'::[])))
+                                                        it with
+                                                | Ok b -> gor j its a b seen1
+                                                | Err e -> Err e)
+                                             | Err e -> Err e)
+                                       else gor j its mn mx seen1
+                              in gor O (x_children rel) Z0 Z0 seen0 with
+                        | Ok a0 ->
+                          let (p, seen') = a0 in
+                          let (p0, b) = p in
+                          let (cs, a) = p0 in
+                          (match go (S k) rest seen' with
+                           | Ok a1 ->
+                             let (prs, s3) = a1 in
+                             Ok (((PRelation ((PPath here), a, b,
+                             cs)) :: prs), s3)
+                           | Err e -> Err e)
+                        | Err e -> Err e)
+                  else go k rest seen0
+              in go O kids (nm :: seen) with
+        | Ok a ->
+          let (prs, seen') = a in
+          Ok ((PFeature (info0, parent, [], prs)), seen')
+        | Err e -> Err e)
+
+(** val fama_parse_ctc : xml -> char list list -> ctc result **)
+
+let fama_parse_ctc el seen =
+  match xattr ('n'::('a'::('m'::('e'::[])))) el with
+  | Some nm ->
+    let known = fun o ->
+      match o with
+      | Some s -> list_existsb_eq s seen
+      | None -> false
+    in
+    let origin =
+      if known (xattr ('f'::('e'::('a'::('t'::('u'::('r'::('e'::[]))))))) el)
+      then xattr ('f'::('e'::('a'::('t'::('u'::('r'::('e'::[]))))))) el
+      else None
+    in
+    let dest_op =
+      if (&&)
+           (tag_is ('e'::('x'::('c'::('l'::('u'::('d'::('e'::('s'::[]))))))))
+             el)
+           (known
+             (xattr
+               ('e'::('x'::('c'::('l'::('u'::('d'::('e'::('s'::[])))))))) el))
+      then (match xattr
+                    ('e'::('x'::('c'::('l'::('u'::('d'::('e'::('s'::[]))))))))
+                    el with
+            | Some d -> Some (d, EXCLUDES)
+            | None -> None)
+      else if (&&)
+                (tag_is
+                  ('r'::('e'::('q'::('u'::('i'::('r'::('e'::('s'::[]))))))))
+                  el)
+                (known
+                  (xattr
+                    ('r'::('e'::('q'::('u'::('i'::('r'::('e'::('s'::[]))))))))
+                    el))
+           then (match xattr
+                         ('r'::('e'::('q'::('u'::('i'::('r'::('e'::('s'::[]))))))))
+                         el with
+                 | Some d -> Some (d, REQUIRES)
+                 | None -> None)
+           else None
+    in
+    (match origin with
+     | Some o ->
+       (match dest_op with
+        | Some p ->
+          let (d, op) = p in
+          Ok { c_name = nm; c_ast = (bin op (term o) (term d)) }
+        | None -> Err FlamaException)
+     | None -> Err FlamaException)
+  | None -> Err FlamaException
+
+(** val fama_read : xml -> pfm result **)
+
+let fama_read doc =
+  let rec go kids cur seen =
+    match kids with
+    | [] ->
+      (match cur with
+       | Some p -> let (r, cs) = p in Ok { proot = r; pctcs = cs }
+       | None -> Err UnboundLocalError)
+    | k :: rest ->
+      if tag_is ('f'::('e'::('a'::('t'::('u'::('r'::('e'::[]))))))) k
+      then (match fama_parse_feature k [] PNone seen with
+            | Ok a -> let (r, seen') = a in go rest (Some (r, [])) seen'
+            | Err e -> Err e)
+      else if (||)
+                (tag_is
+                  ('e'::('x'::('c'::('l'::('u'::('d'::('e'::('s'::[]))))))))
+                  k)
+                (tag_is
+                  ('r'::('e'::('q'::('u'::('i'::('r'::('e'::('s'::[]))))))))
+                  k)
+           then (match fama_parse_ctc k seen with
+                 | Ok c ->
+                   (match cur with
+                    | Some p ->
+                      let (r, cs) = p in
+                      go rest (Some (r, (app cs (c :: [])))) seen
+                    | None -> Err UnboundLocalError)
+                 | Err e -> Err e)
+           else go rest cur seen
+  in go (x_children doc) None []
+
 (** val e_aval : aval -> sexp **)
 
 let rec e_aval = function
@@ -3808,6 +5416,114 @@ let d_fm = function
       | _ -> None))
 | _ -> None
 
+(** val e_ptr : ptr -> sexp **)
+
+let e_ptr = function
+| PNone -> SAtom ('n'::('i'::('l'::[])))
+| PPath l ->
+  e_tag ('p'::[])
+    (flat_map (fun ij -> (e_nat (fst ij)) :: ((e_nat (snd ij)) :: [])) l)
+| PExt -> SAtom ('e'::('x'::('t'::[])))
+
+(** val e_pfeature : pfeature -> sexp **)
+
+let rec e_pfeature = function
+| PFeature (i, p, ap, rs) ->
+  e_tag ('p'::('f'::[])) ((SStr
+    i.f_name) :: ((e_aval i.f_abstract) :: ((e_ftype i.f_type) :: ((e_z
+                                                                    i.f_cmin) :: (
+    (e_z i.f_cmax) :: ((e_ptr p) :: ((SList
+    (map (fun ap_ -> SList ((e_attr (fst ap_)) :: ((e_ptr (snd ap_)) :: [])))
+      (combine i.f_attrs ap))) :: ((SList
+    (map (fun r ->
+      let PRelation (rp, a, b, cs) = r in
+      e_tag ('p'::('r'::[])) ((e_ptr rp) :: ((e_z a) :: ((e_z b) :: ((SList
+        (map e_pfeature cs)) :: []))))) rs)) :: []))))))))
+
+(** val e_pfm : pfm -> sexp **)
+
+let e_pfm m =
+  e_tag ('p'::('f'::('m'::[]))) ((e_pfeature m.proot) :: ((SList
+    (map e_ctc m.pctcs)) :: []))
+
+(** val e_xml : xml -> sexp **)
+
+let rec e_xml = function
+| Elem (t, a, txt, kids) ->
+  e_tag ('x'::[]) ((SStr t) :: ((SList
+    (map (fun kv -> SList ((SStr (fst kv)) :: ((SStr (snd kv)) :: []))) a)) :: (
+    (e_opt (fun x0 -> SStr x0) txt) :: ((SList (map e_xml kids)) :: []))))
+
+(** val d_xml : sexp -> xml option **)
+
+let rec d_xml = function
+| SList l ->
+  (match l with
+   | [] -> None
+   | s0 :: l0 ->
+     (match s0 with
+      | SAtom _ ->
+        (match l0 with
+         | [] -> None
+         | s2 :: l1 ->
+           (match s2 with
+            | SStr t ->
+              (match l1 with
+               | [] -> None
+               | s3 :: l2 ->
+                 (match s3 with
+                  | SList a ->
+                    (match l2 with
+                     | [] -> None
+                     | txt :: l3 ->
+                       (match l3 with
+                        | [] -> None
+                        | s4 :: l4 ->
+                          (match s4 with
+                           | SList kids ->
+                             (match l4 with
+                              | [] ->
+                                (match omap (fun kv ->
+                                         match kv with
+                                         | SAtom _ -> None
+                                         | SStr _ -> None
+                                         | SList l5 ->
+                                           (match l5 with
+                                            | [] -> None
+                                            | s1 :: l6 ->
+                                              (match s1 with
+                                               | SAtom _ -> None
+                                               | SStr k ->
+                                                 (match l6 with
+                                                  | [] -> None
+                                                  | s5 :: l7 ->
+                                                    (match s5 with
+                                                     | SAtom _ -> None
+                                                     | SStr v ->
+                                                       (match l7 with
+                                                        | [] -> Some (k, v)
+                                                        | _ :: _ -> None)
+                                                     | SList _ -> None))
+                                               | SList _ -> None))) a with
+                                 | Some a' ->
+                                   (match if is_nil txt
+                                          then Some None
+                                          else option_map (fun x -> Some x)
+                                                 (d_str txt) with
+                                    | Some txt' ->
+                                      (match omap d_xml kids with
+                                       | Some kids' ->
+                                         Some (Elem (t, a', txt', kids'))
+                                       | None -> None)
+                                    | None -> None)
+                                 | None -> None)
+                              | _ :: _ -> None)
+                           | _ -> None)))
+                  | _ -> None))
+            | _ -> None))
+      | _ -> None))
+| _ -> None
+
 (** val e_names : feature list -> sexp **)
 
 let e_names l =
@@ -4168,7 +5884,7 @@ let dispatch = function
                                           bad
                                             ('a'::('r'::('i'::('t'::('y'::[]))))))))
                             else if eqb0 op
-                                      ('e'::('c'::('h'::('o'::('_'::('f'::('m'::[])))))))
+                                      ('j'::('s'::('o'::('n'::('_'::('w'::('r'::('i'::('t'::('e'::[]))))))))))
                                  then (match args with
                                        | [] ->
                                          bad
@@ -4177,12 +5893,158 @@ let dispatch = function
                                          (match l0 with
                                           | [] ->
                                             (match d_fm m with
-                                             | Some m' -> e_fm m'
+                                             | Some m' ->
+                                               e_result e_aval (json_write m')
                                              | None -> bad ('f'::('m'::[])))
                                           | _ :: _ ->
                                             bad
                                               ('a'::('r'::('i'::('t'::('y'::[])))))))
-                                 else bad
-                                        ('u'::('n'::('k'::('n'::('o'::('w'::('n'::(' '::('o'::('p'::[]))))))))))
+                                 else if eqb0 op
+                                           ('j'::('s'::('o'::('n'::('_'::('r'::('e'::('a'::('d'::[])))))))))
+                                      then (match args with
+                                            | [] ->
+                                              bad
+                                                ('a'::('r'::('i'::('t'::('y'::[])))))
+                                            | v :: l0 ->
+                                              (match l0 with
+                                               | [] ->
+                                                 (match d_aval v with
+                                                  | Some v' ->
+                                                    e_result e_pfm
+                                                      (json_read v')
+                                                  | None ->
+                                                    bad
+                                                      ('a'::('v'::('a'::('l'::[])))))
+                                               | _ :: _ ->
+                                                 bad
+                                                   ('a'::('r'::('i'::('t'::('y'::[])))))))
+                                      else if eqb0 op
+                                                ('g'::('l'::('e'::('n'::('c'::('o'::('e'::('_'::('w'::('r'::('i'::('t'::('e'::[])))))))))))))
+                                           then (match args with
+                                                 | [] ->
+                                                   bad
+                                                     ('a'::('r'::('i'::('t'::('y'::[])))))
+                                                 | m :: l0 ->
+                                                   (match l0 with
+                                                    | [] ->
+                                                      (match d_fm m with
+                                                       | Some m' ->
+                                                         e_result e_aval
+                                                           (glencoe_write m')
+                                                       | None ->
+                                                         bad ('f'::('m'::[])))
+                                                    | _ :: _ ->
+                                                      bad
+                                                        ('a'::('r'::('i'::('t'::('y'::[])))))))
+                                           else if eqb0 op
+                                                     ('g'::('l'::('e'::('n'::('c'::('o'::('e'::('_'::('r'::('e'::('a'::('d'::[]))))))))))))
+                                                then (match args with
+                                                      | [] ->
+                                                        bad
+                                                          ('a'::('r'::('i'::('t'::('y'::[])))))
+                                                      | v :: l0 ->
+                                                        (match l0 with
+                                                         | [] ->
+                                                           (match d_aval v with
+                                                            | Some v' ->
+                                                              e_result e_pfm
+                                                                (glencoe_read
+                                                                  v')
+                                                            | None ->
+                                                              bad
+                                                                ('a'::('v'::('a'::('l'::[])))))
+                                                         | _ :: _ ->
+                                                           bad
+                                                             ('a'::('r'::('i'::('t'::('y'::[])))))))
+                                                else if eqb0 op
+                                                          ('f'::('i'::('d'::('e'::('_'::('w'::('r'::('i'::('t'::('e'::[]))))))))))
+                                                     then (match args with
+                                                           | [] ->
+                                                             bad
+                                                               ('a'::('r'::('i'::('t'::('y'::[])))))
+                                                           | m :: l0 ->
+                                                             (match l0 with
+                                                              | [] ->
+                                                                (match 
+                                                                 d_fm m with
+                                                                 | Some m' ->
+                                                                   e_result
+                                                                    e_xml
+                                                                    (fide_write
+                                                                    m')
+                                                                 | None ->
+                                                                   bad
+                                                                    ('f'::('m'::[])))
+                                                              | _ :: _ ->
+                                                                bad
+                                                                  ('a'::('r'::('i'::('t'::('y'::[])))))))
+                                                     else if eqb0 op
+                                                               ('f'::('i'::('d'::('e'::('_'::('r'::('e'::('a'::('d'::[])))))))))
+                                                          then (match args with
+                                                                | [] ->
+                                                                  bad
+                                                                    ('a'::('r'::('i'::('t'::('y'::[])))))
+                                                                | v :: l0 ->
+                                                                  (match l0 with
+                                                                   | [] ->
+                                                                    (match 
+                                                                    d_xml v with
+                                                                    | Some v' ->
+                                                                    e_result
+                                                                    e_pfm
+                                                                    (fide_read
+                                                                    v')
+                                                                    | None ->
+                                                                    bad
+                                                                    ('x'::('m'::('l'::[]))))
+                                                                   | _ :: _ ->
+                                                                    bad
+                                                                    ('a'::('r'::('i'::('t'::('y'::[])))))))
+                                                          else if eqb0 op
+                                                                    ('f'::('a'::('m'::('a'::('_'::('r'::('e'::('a'::('d'::[])))))))))
+                                                               then (match args with
+                                                                    | [] ->
+                                                                    bad
+                                                                    ('a'::('r'::('i'::('t'::('y'::[])))))
+                                                                    | v :: l0 ->
+                                                                    (match l0 with
+                                                                    | [] ->
+                                                                    (match 
+                                                                    d_xml v with
+                                                                    | Some v' ->
+                                                                    e_result
+                                                                    e_pfm
+                                                                    (fama_read
+                                                                    v')
+                                                                    | None ->
+                                                                    bad
+                                                                    ('x'::('m'::('l'::[]))))
+                                                                    | _ :: _ ->
+                                                                    bad
+                                                                    ('a'::('r'::('i'::('t'::('y'::[])))))))
+                                                               else if 
+                                                                    eqb0 op
+                                                                    ('e'::('c'::('h'::('o'::('_'::('f'::('m'::[])))))))
+                                                                    then 
+                                                                    (match args with
+                                                                    | [] ->
+                                                                    bad
+                                                                    ('a'::('r'::('i'::('t'::('y'::[])))))
+                                                                    | m :: l0 ->
+                                                                    (match l0 with
+                                                                    | [] ->
+                                                                    (match 
+                                                                    d_fm m with
+                                                                    | Some m' ->
+                                                                    e_fm m'
+                                                                    | None ->
+                                                                    bad
+                                                                    ('f'::('m'::[])))
+                                                                    | _ :: _ ->
+                                                                    bad
+                                                                    ('a'::('r'::('i'::('t'::('y'::[])))))))
+                                                                    else 
+                                                                    bad
+                                                                    ('u'::('n'::('k'::('n'::('o'::('w'::('n'::(' '::('o'::('p'::[]))))))))))
       | _ -> bad ('s'::('h'::('a'::('p'::('e'::[])))))))
 | _ -> bad ('s'::('h'::('a'::('p'::('e'::[])))))
